@@ -1530,3 +1530,16 @@ def __getattr__(name):
 
         return rngmodel.current_random()
     return _passthrough(name)
+
+
+def with_random(random_obj):
+    """A view of this stand-in whose ``random`` attribute is the given object."""
+    shim = types.ModuleType("vx_symnp_with_random")
+
+    def _ga(name):
+        if name == "random":
+            return random_obj
+        return getattr(_THIS, name)
+
+    shim.__getattr__ = _ga  # type: ignore[attr-defined]
+    return shim
